@@ -199,13 +199,14 @@ def _alarm(*_):
 
 def replay_path(args):
     """Guarded replay: an operation that does not return is reported as a hang.  The guard is
-    wall-clock (20 s, far above the microseconds a replay takes; 2 s once a worker has seen
+    CPU time (10 s, far above the microseconds a replay takes; 2 s once a worker has seen
     three hangs); whatever the interrupted replay produced is discarded."""
     import signal  # noqa: PLC0415
 
-    signal.signal(signal.SIGALRM, _alarm)
+    # CPU time of this process, not wall-clock: an infinite loop burns it, a loaded machine does not
+    signal.signal(signal.SIGVTALRM, _alarm)
     _HUNG["now"] = False
-    signal.alarm(20 if _HUNG["count"] < 3 else 2)
+    signal.setitimer(signal.ITIMER_VIRTUAL, 10 if _HUNG["count"] < 3 else 2)
     out = None
     try:
         out = _replay_path(args)
@@ -215,7 +216,7 @@ def replay_path(args):
         if not _HUNG["now"]:
             raise
     finally:
-        signal.alarm(0)
+        signal.setitimer(signal.ITIMER_VIRTUAL, 0)
     if _HUNG["now"]:
         _HUNG["count"] += 1
         path, salt = args
